@@ -603,11 +603,17 @@ class MasterDriver:
         self.ops.append(('delete_apps', victims))
 
     def op_prio(self):
-        apps = sorted(self.Z['apps'])
+        # (an instance the master has unscheduled itself meanwhile - schedule-once - is gone from /scheduled)
+        apps = sorted(a for a in self.Z['apps'] if self.admin.exists(self.z.path.scheduled(a)))
         if not apps:
             return
         upd = {a: self.rng.choice([0, 1, 5, 10, 50, 100]) for a in self.rng.sample(apps, min(len(apps), 2))}
-        self.api.update_app_priorities(self.admin, upd)
+        import kazoo.exceptions
+        try:
+            self.api.update_app_priorities(self.admin, upd)
+        except kazoo.exceptions.NoNodeError:
+            self.mon.count('operator_command_met_vanished_instance')
+            return
         for a, p in upd.items():
             self.Z['apps'][a]['man']['priority'] = p
         self.ops.append(('prio', upd))
